@@ -426,4 +426,66 @@ def render (fmt : Str → Except Err Str) (env : Env) (compactF : List Frame →
   let ls ← renderMarkup env compactF simple utf8 verbosity ignoreSet name msg frames
   ls.mapM fmt
 
+/-! ## deciders for the hypotheses of the theorems (Props/C20)
+
+The theorems of Props/C20 assume facts about what the external engines delivered: the tokenizer
+contract `WF` (`lines_verbatim`), "the tokenizer produced a stream for every frame's file and a
+complete stream or `TokenError` for every frame's line" (`render_fails_iff`).  They are decided
+here on the REAL tokenizer output of every correspondence case (driver keys `contract`,
+`frames_ok`). -/
+
+/-- the physical line of row `r` as the tokenizer reports it: the `line` attribute of the first
+token that starts on the row (`[]` when there is none) -/
+def physOf (toks : List Tok) (r : Nat) : Str :=
+  match toks.find? (fun t => t.srow == r) with
+  | some t => t.line
+  | none => []
+
+/-- decides the tokenizer contract `WF` of `lines_verbatim` (Lemmas/TraceVerbatim), clause by clause -/
+def wfB (env : Env) (phys : Nat → Str) : Nat → Nat → List Tok → Bool
+  | _, _, [] => true
+  | row, col, t :: ts =>
+    if t.srow = 0 then wfB env phys row col ts
+    else if t.kind = .endmarker then true
+    else
+      t.erow == t.srow && t.line == phys t.srow && decide (t.scol ≤ t.ecol) &&
+      t.text == slice t.line t.scol t.ecol &&
+      ((t.srow == row && decide (col ≤ t.scol)) || t.srow == row + 1) &&
+      !((phys t.srow).take t.scol).contains '\n' &&
+      match classify env t with
+      | none => wfB env phys t.srow (if t.srow > row then 0 else col) ts
+      | some _ => wfB env phys t.srow t.ecol ts
+
+/-- a token (before the ENDMARKER) spans several rows: the stream is outside `lines_verbatim` -/
+def multiB : List Tok → Bool
+  | [] => false
+  | t :: ts =>
+    if t.srow = 0 then multiB ts
+    else if t.kind = .endmarker then false
+    else decide (t.srow < t.erow) || multiB ts
+
+/-- the status of a token stream with respect to `lines_verbatim`: `wf` (the hypothesis holds),
+`multi` (a multi-line token: the theorem does not speak about the stream), `violated` (single-line
+tokens only, and the tokenizer does not behave as the hypothesis says) -/
+def contractStatus (env : Env) (toks : List Tok) : String :=
+  if wfB env (physOf toks) 1 0 toks then "wf" else if multiB toks then "multi" else "violated"
+
+/-- the stream ends with an ENDMARKER token -/
+def hasEndB (toks : List Tok) : Bool := toks.any (fun t => t.srow != 0 && t.kind == .endmarker)
+
+/-- the tokenizer produced a stream for the frame's file -/
+def fileOkB (f : Frame) : Bool :=
+  match f.fileToks with
+  | .ok _ => true
+  | .error _ => false
+
+/-- the tokenizer's outcome on the frame's line is a complete stream or `TokenError` -/
+def lineOkB (f : Frame) : Bool :=
+  match f.lineToks with
+  | .error e => e == .other "TokenError"
+  | .ok toks => hasEndB toks
+
+/-- decides the hypothesis `∀ f ∈ frames, FileOk f ∧ LineOk f` of `render_fails_iff` -/
+def framesOkB (fs : List Frame) : Bool := fs.all (fun f => fileOkB f && lineOkB f)
+
 end Clikit.Trace
